@@ -197,6 +197,13 @@ def execute(case):
                 if mask[lane]: set_lane(view, lane, vals[lane], mdim)
             res.fault('F-inj')
     run_in, run_out = drive(sim, wrap_callback(cb, case.get('cb_style', 'function')), case['api'])
+    # fault-simulation loop: the SAME simulator object, same patterns assigned again, no callback: the fault-free reference
+    lsim.assign(sim, mva)
+    again_in, again_out = drive(sim, None, case['api'])
+    for cy in range(cycles):
+        if not np.array_equal(again_out[cy], ref_out[cy]):
+            res.violate('injection-persists-on-object', f'm={m} cycle {cy}: after a propagation with injections, a callback-free run of the same simulator object on the same patterns differs from the fault-free reference')
+            return res
     res.log.add('ev', [(cy, li) for cy, li, _ in events][:400])
     res.log.add_array('out', run_out[-1])
     # ---- history checks
